@@ -78,6 +78,27 @@ def run(ctx):
     recs, r = run_trace(ctx, progs, "main", timeout=6000)
     ctx.traces += len(progs)
     classify(ctx, r, recs, by_id, STATE_TAGS | {"Unreadable"}, STEP_TAGS | {"RealReadFails", "CheckNotClean"}, "pack/index agreement")
+    # packs closed by the blob-count limit (about 10 000 blobs, compressed header entries): index removed, repair-index
+    big = os.path.join(ctx.out, "bigpack.ndjson")
+    rc, out = vlib.vh(["bigpack", "--seed", ctx.seed, "--out", big, "--counts", "9500,10000" if q else "9000,9024,9025,9500,9999,10000,10001,15000"], timeout=3000)
+    if rc != 0:
+        raise vlib.ToolError("bigpack driver failed: " + out[-1500:])
+    brecs = [json.loads(l) for l in open(big)]
+    rb = vlib.tlc("RebuildTrace.tla", "RebuildTrace.cfg", workers=1, timeout=600, env={"TRACE": big}, metadir=os.path.join(ctx.out, "tv-big"))
+    if rb.error or rb.violated or rb.printed("TOOLERR"):
+        raise vlib.ToolError("RebuildTrace failed: %s %s" % (rb.error or rb.violated, rb.printed("TOOLERR")[:1]))
+    for nc in rb.printed("NONCONF"):
+        rec = brecs[nc[1] - 1]
+        for it in nc[3]["#set"]:
+            if it[0].startswith("TOOLERR"):
+                raise vlib.ToolError("bigpack scenario: %s" % it)
+            ctx.violation({"id": rec["id"], "formula": "Rebuild", "kind": "bigpack", "what": "index not rebuildable from a pack of %s blobs: %s"
+                           % (max(rec.get("pack_blobs", [0])), json.dumps(it)[:300]), "detail": it, "record": rec})
+    if not any(max(x.get("pack_blobs", [0])) >= 9025 for x in brecs):
+        raise vlib.ToolError("vacuity: no pack with at least 9025 blobs was produced")
+    ctx.traces += len(brecs)
+    ctx.states += rb.distinct
+    ctx.transitions += rb.generated
     nwp = sum(1 for e in recs if e["e"] == "wpack")
     nwi = sum(1 for e in recs if e["e"] == "widx")
     nrep = sum(1 for e in recs if e["e"] == "end" and e["res"] == "ok" and False)
@@ -125,6 +146,13 @@ def run(ctx):
 
 def replay(ctx, path):
     rec = json.load(open(path))
+    if rec.get("kind") == "bigpack":
+        big = os.path.join(ctx.out, "replay-big.ndjson")
+        vlib.vh(["bigpack", "--seed", ctx.seed, "--out", big, "--counts", str(rec["record"]["n"])], timeout=3000)
+        rb = vlib.tlc("RebuildTrace.tla", "RebuildTrace.cfg", workers=1, timeout=600, env={"TRACE": big}, metadir=os.path.join(ctx.out, "tv-big"))
+        for nc in rb.printed("NONCONF"):
+            ctx.violation({"id": nc[2], "formula": "Rebuild", "kind": "bigpack", "what": "index not rebuildable: %s" % json.dumps(nc[3])[:300]})
+        return
     prog = rec["program"]
     recs, r = run_trace(ctx, [prog], "replay")
     classify(ctx, r, recs, {prog["id"]: prog}, STATE_TAGS | {"Unreadable"}, STEP_TAGS | {"RealReadFails", "CheckNotClean"}, "pack/index agreement")
